@@ -6,7 +6,7 @@ weight of field p; R4 the offset added to the (const) input is removed again ove
 coefficient position is treated identically; R6 the AVX2 inline-asm path evaluates to the same (shift, mask,
 subtract) triple as the C path and the TLWE wrapper applies it to all k+1 polynomials into disjoint windows.
 """
-from sa import asm, bits, bounds, summ, sym
+from sa import affine, asm, bits, bounds, summ, sym
 from sa.facts import Program
 from sa.symexec import Hooks, run_function, flat
 from sa.sym import I, ZERO
@@ -141,8 +141,10 @@ def run(chk):
         cn = {p["n"]: sym.sym(p["n"]) for p in ctor.params}
         acc = [p for p in cps if p["kind"] == "local" and p["op"] == "+=" and len(p["loops"]) == 1]
         offs = [p for p in cps if p["kind"] == "store" and p["lv"] == sym.arrow(sym.sym("this"), "offset")]
-        if len(acc) != 1 or len(offs) != 1:
-            problems.append("offset construction not recognised (%d accumulations, %d stores)" % (len(acc), len(offs)))
+        base = [p for p in offs if p["op"] == "=" and not p["guards"] and not p["loops"]]
+        extras = [p for p in offs if p not in base]
+        if len(acc) != 1 or len(base) != 1:
+            chk.broken("TGswParams constructor: offset construction not recognised (%d accumulations, %d assignments)" % (len(acc), len(base)))
         else:
             al = acc[0]["loops"][0]
             e_acc = bits.pow2_exp(acc[0]["val"])
@@ -151,12 +153,43 @@ def run(chk):
                 problems.append("offset accumulates 2^(%s), field p sits at 2^(%s)" % (sym.show(e_acc) if e_acc else sym.show(acc[0]["val"]), sym.show(want)))
             if (al["lo"], al["cmp"], al["hi"]) != (ZERO, "<", cn["l"]):
                 problems.append("offset accumulates over [%s,%s), not [0,l)" % (sym.show(al["lo"]), sym.show(al["hi"])))
-            ov = offs[0]["val"]
+            ov = base[0]["val"]
             fac = set()
             for m, c in sym.poly_items(ov):
                 fac.update(m)
             if sym.arrow(sym.sym("this"), "halfBg") not in fac or len(fac) != 2:
                 problems.append("offset = %s is not halfBg * (sum of field weights)" % sym.show(ov))
+            # any further contribution e to the offset is not cancelled by the digits: the recomposition becomes
+            # trunc_step(x + e), whose distance to x stays below step = 2^(32 - l*Bgbit) iff 0 <= e < step
+            hstores = [p for p in cps if p["kind"] == "store" and p["loops"] and p["lv"][0] == "idx" and bits.pow2_exp(p["val"]) is not None]
+            step_e = sym.sub(I(32), sym.mul(cn["l"], cn["Bgbit"]))
+            for xp in extras:
+                ev = xp["val"]
+                if xp["op"] == "-=":
+                    problems.append("offset -= %s (line %s): a negative shift of the recomposition is not cancelled by the digits" % (sym.show(ev), xp["line"]))
+                    continue
+                if xp["op"] != "+=" or xp["loops"]:
+                    chk.broken("TGswParams constructor: offset statement at line %s not recognised" % xp["line"])
+                if ev == ZERO:
+                    continue
+                # resolve a read of the gadget table written in the same constructor
+                if len(hstores) == 1:
+                    hv, hl_ = hstores[0]["val"], hstores[0]["loops"][0]["var"]
+                    reads = [a for a in sym.atoms(ev) if a[0] == "idx" and a[1] == hstores[0]["lv"][1]]
+                    ev = sym.rewrite(ev, {a: sym.subst(hv, {hl_: a[2]}) for a in reads})
+                ee = bits.pow2_exp(ev)
+                if ee is None:
+                    chk.broken("TGswParams constructor: extra offset term %s at line %s is not a power of two" % (sym.show(ev), xp["line"]))
+                facts = affine.guard_constraints(xp["guards"]) + [sym.sub(cn["l"], I(1)), sym.sub(cn["Bgbit"], I(1))]
+                if affine.prove_nonneg(sym.sub(sym.sub(step_e, ee), I(1)), facts) and affine.prove_nonneg(ee, facts):
+                    continue          # 0 < e < step: a rounding offset inside the last step
+                if affine.prove_nonneg(sym.sub(ee, step_e), facts):
+                    problems.append("offset += %s = 2^(%s) at line %s%s: not cancelled by the digits, the recomposition is shifted by "
+                                    "at least the whole precision step 2^(%s) (error reaches the bound for inputs that are multiples of the step)" % (
+                                        sym.show(xp["val"]), sym.show(ee), xp["line"],
+                                        " under %s" % [sym.show(g) for g in xp["guards"]] if xp["guards"] else "", sym.show(step_e)))
+                else:
+                    chk.broken("TGswParams constructor: cannot compare the extra offset term 2^(%s) with the step 2^(%s)" % (sym.show(ee), sym.show(step_e)))
         adds = [t for t in touch if t["op"] == "+="]
         if len(adds) != 1 or R(adds[0]["val"]) != P(params, "offset") and adds[0]["val"] != P(params, "offset"):
             problems.append("the offset is not added to the input before extraction: %s" % [(t["op"], sym.show(t["val"])) for t in touch])
